@@ -35,7 +35,7 @@ pub fn build_mlar() -> Result<PathBuf, String> {
         format!("{root}/.build")
     });
     // VERIF_REPO (default /repo) lets a mutated copy of the repository be checked; it gets its own target dir
-    let target = if std::env::var("VERIF_REPO").is_ok() { format!("{build}/repo-target-alt") } else { format!("{build}/repo-target") };
+    let target = crate::cli::repo_target(&build, &std::env::var("VERIF_REPO").unwrap_or_else(|_| "/repo".to_string()));
     let out = Command::new("cargo")
         .args(["build", "--offline", "-p", "mlar"])
         .current_dir(std::env::var("VERIF_REPO").unwrap_or_else(|_| "/repo".into()))
